@@ -861,6 +861,24 @@ class Executor:
             new.body = new.body[:-1] + n.body
             self.loop_ordinals[id(new)] = ordinal
             return self._loop(new, st, k, start_override)
+        if kind == "for" and isinstance(n.iter, ast.GeneratorExp) and len(n.iter.generators) == 1 and not n.iter.generators[0].ifs \
+                and isinstance(n.iter.generators[0].iter, ast.Call) and isinstance(n.iter.generators[0].iter.func, ast.Name) \
+                and n.iter.generators[0].iter.func.id == "count" and len(n.iter.generators[0].iter.args) <= 1 \
+                and isinstance(n.iter.generators[0].target, ast.Name) and not n.orelse \
+                and not any(isinstance(x, ast.Continue) for b in n.body for x in ast.walk(b)):
+            # for T in (E for V in count(a)): body   ==>   __cv = a; while True: V = __cv; T = E; body; __cv = __cv + 1
+            # (an unbounded search that can only end with `break` / `return` / an exception; `continue` is outside the subset)
+            g = n.iter.generators[0]
+            a0 = ast.unparse(g.iter.args[0]) if g.iter.args else "0"
+            src = f"while True:\n    {g.target.id} = __cv\n    {ast.unparse(n.target)} = {ast.unparse(n.iter.elt)}\n    pass\n    __cv = __cv + 1\n"
+            new = ast.parse(src).body[0]
+            for x in ast.walk(new):
+                x.lineno = n.lineno
+                x.col_offset = n.col_offset
+            new.body = new.body[:2] + n.body + new.body[3:]
+            self.loop_ordinals[id(new)] = ordinal
+            st.env["__cv"] = Evaluator(self, st).eval(ast.parse(a0, mode="eval").body)
+            return self._loop(new, st, k, start_override)
         if kind == "for" and not (isinstance(n.iter, ast.Call) and isinstance(n.iter.func, ast.Name) and n.iter.func.id in ("range", "zip")):
             # for t in SEQ (a symbolic sequence)   ==>   for __zi in range(len(SEQ)): t = SEQ[__zi]
             itv = Evaluator(self, st).eval(n.iter)
@@ -1151,6 +1169,18 @@ class Evaluator:
     def e_List(self, n):
         return [self.eval(e) for e in n.elts]
 
+    def e_Dict(self, n):
+        """{k: v, ...} with literal or symbolic scalar keys (no ** unpacking): a Python dict of the evaluated items"""
+        if any(k is None for k in n.keys):
+            raise Outside("dict display with ** unpacking")
+        out = {}
+        for k, v in zip(n.keys, n.values):
+            kv = self.eval(k)
+            if not (isinstance(kv, (str, int)) or is_z3(kv)):
+                raise Outside("dict display key")
+            out[kv] = self.eval(v)
+        return out
+
     def e_Set(self, n):
         vals = [self.eval(e) for e in n.elts]
         if not all(v is None or isinstance(v, (str, int)) for v in vals):
@@ -1211,6 +1241,9 @@ class Evaluator:
         if isinstance(o, list):
             return Method(o, n.attr)
         if isinstance(o, str) and n.attr == "format":
+            hf = self.ex.contract.handlers.get("str.format")      # a contract may give formatted strings a meaning (keys built from a counter)
+            if hf is not None:
+                return PyCallable(lambda ev2, args, kwargs, node: hf(ev2.ex, ev2.st, o, args, kwargs, node, ev2))
             return PyCallable(lambda ev2, args, kwargs, node: "<formatted string>")
         h = self.ex.contract.handlers.get("attr_any")
         if h:
